@@ -17,7 +17,9 @@ TARGETS = {
     "i32": ("i32", "7", [
         ("simple", "7", "8"), ("eq", "== 7", "== 8"), ("ne", "!= 8", "!= 7"), ("gt", "> 6", "> 7"), ("le", "<= 7", "<= 6"),
         ("range", "1..=7", "1..7"), ("range_to", "..8", "..7"), ("range_to_incl", "..=7", "..=6"), ("range_from", "7..", "8.."),
-        ("wild", "_", None)]),
+        ("wild", "_", None),
+        # the operand is a REFERENCE held by the caller (a loop variable, a function parameter): one reference level more than the value
+        ("gt_refvar", "> rv6", "> rv7"), ("eq_refvar", "== rv7", "== rv6")]),
     "string": ("String", "\"hello\".to_string()", [
         ("string", "\"hello\"", "\"jello\""), ("eq", "== \"hello\"", "== \"x\""), ("ne", "!= \"x\"", "!= \"hello\""),
         ("regex", "=~ r\"^he\"", "=~ r\"^je\""), ("like", "=~ pat", "=~ nopat")]),
@@ -138,7 +140,8 @@ def program(target, pos, pattern, reuse=False):
         call = "macro_rules! fwd { ($v:expr) => { assert_struct!($v, %s) } } fwd!(%s);" % (pat, root)
     else:
         call = "assert_struct!(%s, %s);" % (root, pat)
-    body = "%s let pat = \"^he\"; let nopat = \"^zz\"; %s%s%s" % (setup, before, call, after)
+    body = ("%s let pat = \"^he\"; let nopat = \"^zz\"; let rv6: &i32 = &6; let rv7: &i32 = &7; let (hs, js) = (\"hello\".to_string(), \"jello\".to_string()); "
+            "let rhello: &String = &hs; let rjello: &String = &js; %s%s%s" % (setup, before, call, after))
     return (e2e.PRELUDE + COMMON + decl +
             "\nfn main() { std::panic::set_hook(Box::new(|_| {})); run_case(\"c\", || { %s }); }\n" % body)
 
